@@ -30,6 +30,7 @@ type Driver struct {
 	Overlaps   int32 // times two output callbacks were active at once
 	Emitted    int64
 	CallbackDelay time.Duration // how long the "terminal write" takes (0: nothing)
+	InFlight   func() int64 // exchanges the simulator is serving right now (nil: unknown)
 	width      int64
 	height     int64
 }
@@ -70,36 +71,30 @@ func (d *Driver) Resize(w, h int) {
 
 // Settle waits until no load is in flight: mode is neither loading nor opening and no page has a loader running.
 func (d *Driver) Settle(timeout time.Duration) (ui.VerifSnap, error) {
-	deadline := time.Now().Add(timeout)
-	var snap ui.VerifSnap
-	for {
-		snap = d.S.VerifSnapshot()
-		busy := snap.Mode == ui.VerifLoading || snap.Mode == ui.VerifOpening
-		for _, p := range snap.Pages {
-			if p.LoadingUp || p.LoadingDown {
-				busy = true
-			}
-		}
-		if !busy {
-			return snap, nil
-		}
-		if time.Now().After(deadline) {
-			return snap, fmt.Errorf("UI did not settle within %v (mode %d)", timeout, snap.Mode)
-		}
-		time.Sleep(300 * time.Microsecond)
-	}
+	return d.settle(timeout, true)
 }
 
 // SettleLoads is Settle for histories with a slow media hook: a running hook (mode "opening") does not count as busy,
 // so that keys arrive while it is still running.
 func (d *Driver) SettleLoads(timeout time.Duration) (ui.VerifSnap, error) {
+	return d.settle(timeout, false)
+}
+
+// stuckAfter: a loader flagged as running while no exchange is in flight and no frame appears for this long is not
+// coming back (servers answer within milliseconds, the client gives up after 2 s).
+const stuckAfter = 12 * time.Second
+
+func (d *Driver) settle(timeout time.Duration, hookCounts bool) (ui.VerifSnap, error) {
 	deadline := time.Now().Add(timeout)
+	quietSince := time.Now()
+	emitted := atomic.LoadInt64(&d.Emitted)
 	for {
 		snap := d.S.VerifSnapshot()
-		busy := snap.Mode == ui.VerifLoading
+		busy := snap.Mode == ui.VerifLoading || (hookCounts && snap.Mode == ui.VerifOpening)
+		loaders := false
 		for _, p := range snap.Pages {
 			if p.LoadingUp || p.LoadingDown {
-				busy = true
+				busy, loaders = true, true
 			}
 		}
 		if !busy {
@@ -107,6 +102,11 @@ func (d *Driver) SettleLoads(timeout time.Duration) (ui.VerifSnap, error) {
 		}
 		if time.Now().After(deadline) {
 			return snap, fmt.Errorf("UI did not settle within %v (mode %d)", timeout, snap.Mode)
+		}
+		if e := atomic.LoadInt64(&d.Emitted); d.InFlight == nil || d.InFlight() != 0 || e != emitted || !loaders || snap.Mode == ui.VerifLoading || snap.Mode == ui.VerifOpening {
+			quietSince, emitted = time.Now(), e
+		} else if time.Since(quietSince) > stuckAfter {
+			return snap, fmt.Errorf("UI did not settle: a page is flagged as loading, but no exchange has been in flight and no frame has appeared for %v (mode %d)", stuckAfter, snap.Mode)
 		}
 		time.Sleep(300 * time.Microsecond)
 	}
